@@ -5,8 +5,9 @@
 (* Documents are trees of tagged nodes:                                    *)
 (*   [j "obj", v Seq([k bytes, v node])]  [j "arr", v Seq(node)]            *)
 (*   [j "str", v bytes]  [j "num", v limbs]  [j "bool", v BOOLEAN]          *)
-(*   [j "null"]  [j "ip", v octets]  (a string holding an IP address; the  *)
-(*   harness recognises it, the textual form belongs to std)               *)
+(*   [j "null"]  [j "ip", v octets, txt bytes]  (a string holding an IP    *)
+(*   address; the harness recognises it; the textual form belongs to std   *)
+(*   and is carried along so that a Bytes field can take the string)       *)
 (*   [j "matcher", v matcher]  (list-matcher data, opaque to the spec)     *)
 (*                                                                         *)
 (* EncValue / EncCtx : what serialization must produce.                    *)
@@ -57,6 +58,7 @@ Good(v) == [ok |-> TRUE, v |-> v]
 
 IsByteNum(n) == n.j = "num" /\ n.v[1] = 0 /\ n.v[2] = 0 /\ n.v[3] = 0 /\ n.v[4] <= 255
 DecBytes(n) == IF n.j = "str" THEN Good(n.v)
+               ELSE IF n.j = "ip" /\ "txt" \in DOMAIN n THEN Good(n.txt)   \* a string that also reads as an address
                ELSE IF n.j = "arr" /\ \A i \in 1..Len(n.v) : IsByteNum(n.v[i])
                     THEN Good(Strict([i \in 1..Len(n.v) |-> n.v[i].v[4]]))
                ELSE Bad
